@@ -40,6 +40,37 @@ type PCase struct {
 	Reads    []PChunk `json:"reads"`  // how the body is handed out, one entry per Read call
 	CutAt    int      `json:"cutAt"`  // -1: complete; otherwise the body breaks off after this many (wire) bytes
 	CutErr   string   `json:"cutErr"` // how it breaks off: "unexpected EOF" | "reset" | "timeout"
+	// when set, the proxy is called in process with a ResponseWriter whose Write accepts at most
+	// ShortWrites[k % len] bytes on its k-th call (a short write, no error)
+	ShortWrites []int `json:"shortWrites,omitempty"`
+}
+
+// a ResponseWriter that takes fewer bytes than offered
+type shortWriter struct {
+	h     http.Header
+	code  int
+	buf   bytes.Buffer
+	sizes []int
+	k     int
+}
+
+func (w *shortWriter) Header() http.Header { return w.h }
+func (w *shortWriter) WriteHeader(c int) {
+	if w.code == 0 {
+		w.code = c
+	}
+}
+func (w *shortWriter) Write(p []byte) (int, error) {
+	if w.code == 0 {
+		w.code = 200
+	}
+	n := w.sizes[w.k%len(w.sizes)]
+	w.k++
+	if n > len(p) {
+		n = len(p)
+	}
+	w.buf.Write(p[:n])
+	return n, nil
 }
 
 // scripted body: hands out data in the given read sizes, then EOF or an error
@@ -166,11 +197,32 @@ func runProxyCase(c *PCase, rng *Rng) (line string, obs map[string]interface{}, 
 	}
 	url := fmt.Sprintf("%s/metrics?_jobName=%s&_hash=%s&_scheme=http", srv.URL, job, hs)
 	cli := &http.Client{Timeout: 10 * time.Second, Transport: &http.Transport{DisableCompression: true, DisableKeepAlives: true}}
-	resp, cerr := cli.Get(url)
-	clientErr := cerr != nil
+	var resp *http.Response
+	var cerr error
+	clientErr := false
 	code := 0
 	var got []byte
 	ctype := ""
+	if len(c.ShortWrites) > 0 {
+		sw := &shortWriter{h: http.Header{}, sizes: c.ShortWrites}
+		func() {
+			defer func() {
+				if r := recover(); r != nil {
+					clientErr = true // the handler aborted the response
+				}
+			}()
+			proxy.ServeHTTP(sw, httptest.NewRequest("GET", url, nil))
+		}()
+		code = sw.code
+		if code == 0 {
+			code = 200
+		}
+		ctype = sw.h.Get("Content-Type")
+		got = sw.buf.Bytes()
+	} else {
+		resp, cerr = cli.Get(url)
+		clientErr = cerr != nil
+	}
 	if resp != nil {
 		code = resp.StatusCode
 		ctype = resp.Header.Get("Content-Type")
@@ -255,6 +307,12 @@ func genProxyCase(r *Rng, big bool) *PCase {
 	}
 	if c.Reads == nil {
 		c.Reads = []PChunk{}
+	}
+	if r.Chance(25) {
+		n := 1 + r.Intn(3)
+		for i := 0; i < n; i++ {
+			c.ShortWrites = append(c.ShortWrites, int(r.PickI(1, 1, 3, 7, 100, 300, 5000)))
+		}
 	}
 	return c
 }
